@@ -54,6 +54,7 @@ NeedsAccount(cmd) == cmd.sub \in {"address", "export", "public-key", "sign"}
 \* and a mutation (a slip of the user that the argument parser must refuse):
 \*   mut = [k, at]   "drop": token `at` removed, "dup": token `at` repeated where it stands, "unknown": an undeclared
 \*                   option inserted before token `at`, "surplus": a further argument appended,
+\*                   "text": the token mut.tok (--help, -h, help, --version, -V) inserted before token `at`,
 \*                   "acct_late": the account options of `sign` named in mut.late (a sequence of keys) after the inner
 \*                   subcommand instead of before it
 \* Commands without these fields are written in style sp (the style of every workload before Args.tla existed).
@@ -99,6 +100,7 @@ Mutate(a, m) ==
   ELSE IF m.k = "dup" THEN SubSeq(a, 1, m.at) \o SubSeq(a, m.at, Len(a))
   ELSE IF m.k = "unknown" THEN SubSeq(a, 1, m.at - 1) \o <<"--frobnicate">> \o SubSeq(a, m.at, Len(a))
   ELSE IF m.k = "surplus" THEN a \o <<"extra">>
+  ELSE IF m.k = "text" THEN SubSeq(a, 1, m.at - 1) \o <<m.tok>> \o SubSeq(a, m.at, Len(a))     \* --help, -h, help, --version, -V
   ELSE a
 Argv(cmd) == IF "mut" \in DOMAIN cmd THEN Mutate(Argv0(cmd), cmd.mut) ELSE Argv0(cmd)
 
@@ -121,6 +123,8 @@ StepOptions(st) ==
   IN  \* C16: the two account selectors cannot be combined - wherever on the line and from whichever source they come
       IF NeedsAccount(c) /\ c.acct.index.src # "none" /\ c.acct.path.src # "none" THEN FailWith(st, "selectors_combined")
       ELSE IF p.err \in {"mnemonic_required", "selectors_combined"} THEN FailWith(st, p.err)
+      \* --help / -h / help / --version: text is printed, status 0; the text is not specified (anything but a crash)
+      ELSE IF p.err \in TextRequests THEN OpenWith(st, p.err)
       \* any other unusable line: the design refuses it (no listed property speaks about it: Judge!CliRefusalProps)
       ELSE IF p.err # "" THEN FailWith(st, "usage_" \o p.err)
       \* a slip that happens to leave another well-formed line (a dropped flag, say): that line is another command
